@@ -3073,7 +3073,7 @@ class Ac_Implied_Do(Base):
         :rtype: Optional[Tuple[Ac_Value_List, Ac_Implied_Do_Control]]
 
         """
-        if string[0] + string[-1] != "()":
+        if not string or string[0] + string[-1] != "()":
             return None
         line, repmap = string_replace_map(string[1:-1].strip())
         i = line.rfind("=")
@@ -3081,7 +3081,9 @@ class Ac_Implied_Do(Base):
             # No "=" or it is "==" so no match.
             return None
         j = line[:i].rfind(",")
-        assert j != -1
+        if j == -1:
+            # No value list in front of the loop control so no match.
+            return None
         s1 = repmap(line[:j].rstrip())
         s2 = repmap(line[j + 1 :].lstrip())
         return Ac_Value_List(s1), Ac_Implied_Do_Control(s2)
